@@ -19,7 +19,7 @@ def prep(seed, tag=""):
 def run(seed, pid, tier, workers):
     d = prep(seed, "_" + pid)
     t0 = time.time()
-    env = dict(os.environ, VERIF_REPO=d, VERIF_WORKERS=str(workers))
+    env = dict(os.environ, VERIF_REPO=d, VERIF_WORKERS=str(workers), VERIF_FAIL_DIR=d + "/fails")
     r = subprocess.run(["/verif/check.py", pid, "--tier", tier, "--no-evidence"], capture_output=True, text=True, env=env, cwd="/verif")
     out = r.stdout + r.stderr
     det = r.returncode == 1 and "VIOLATION property=%s" % pid in out
